@@ -1,5 +1,5 @@
 #!/bin/bash
 # re-run every stored behaviour-preserving edit (benign/<id>/patch.diff) against the current checks, N at a time
-# usage: tools/benignpass.sh [jobs]     prints one line per edit: <id> <exit codes per check>; exit 1 anywhere is a FALSE ALARM
+# usage: tools/benignpass.sh [jobs] [egrep filter on the edit id]     prints one line per edit: <id> <exit codes per check>; exit 1 anywhere is a FALSE ALARM
 cd "$(dirname "$0")/.."
-ls benign | xargs -P "${1:-4}" -I{} sh -c 'python3 tools/benigntest.py {} benign/{}/patch.diff --no-suite --jobs 2 2>&1 | grep -E "^check " | tr "\n" " "; echo " <- {}"'
+ls benign | grep -E "${2:-.}" | xargs -P "${1:-4}" -I{} sh -c 'python3 tools/benigntest.py {} benign/{}/patch.diff --no-suite --jobs 2 2>&1 | grep -E "^check " | tr "\n" " "; echo " <- {}"'
